@@ -60,21 +60,38 @@ func (k *Key) UnmarshalXML(d *xml.Decoder, start xml.StartElement) error {
 		return errTrustElement
 	}
 
-	trust := struct {
-		// Use innerxml instead of chardata to make sure we consume the entire
-		// element and if anything that's not base64 encoded has been smuggled into
-		// it somehow we have an error on decoding.
-		Inner []byte `xml:",innerxml"`
-	}{}
-	err := d.DecodeElement(&trust, &start)
-	if err != nil {
-		return err
+	// Read the tokens instead of using an ",innerxml" field: raw inner XML is
+	// only available when decoding from bytes and is empty when the decoder
+	// wraps a token stream, which silently lost the key ID.
+	// Anything that is not character data is recorded as a '<' (which is not in
+	// the base64 alphabet) so that if anything that's not base64 encoded has
+	// been smuggled into the element we still have an error on decoding.
+	var inner []byte
+loop:
+	for {
+		tok, err := d.Token()
+		if err != nil {
+			return err
+		}
+		switch t := tok.(type) {
+		case xml.CharData:
+			inner = append(inner, t...)
+		case xml.EndElement:
+			break loop
+		case xml.StartElement:
+			inner = append(inner, '<')
+			if err = d.Skip(); err != nil {
+				return err
+			}
+		default:
+			inner = append(inner, '<')
+		}
 	}
-	expectedLen := base64.StdEncoding.DecodedLen(len(trust.Inner))
+	expectedLen := base64.StdEncoding.DecodedLen(len(inner))
 	if len(k.KeyID) < expectedLen {
 		k.KeyID = make([]byte, expectedLen)
 	}
-	decoded, err := base64.StdEncoding.Decode(k.KeyID, trust.Inner)
+	decoded, err := base64.StdEncoding.Decode(k.KeyID, inner)
 	if err != nil {
 		// If we run into an error, explicitly clear the KeyID, just in case.
 		k.KeyID = nil
